@@ -204,6 +204,7 @@ func RunC10(s *kernel.Sim) *World {
 	defer cancel()
 	w.Spawn("ctor", func(*kernel.Task) {
 		st, cerr = setec.NewStore(ctx, cfg)
+		w.Gate()
 		if st != nil {
 			w.Store = st
 		}
